@@ -178,6 +178,9 @@ def ite(c, a, b):
         return b
     if a is b:
         return a
+    ex = _ex.current(optional=True)
+    if ex is not None:
+        ex.n_merges += 1        # a state-merged branch (both sides kept in one If-term)
     if isinstance(a, SFloat) and isinstance(b, SFloat):
         if a.root2 is not None or b.root2 is not None:
             raise Unsupported("merge of lazy roots")
